@@ -9,7 +9,7 @@
 (*   Sound     covered blocks lie inside the file; HMAC chunks never overlap what is already covered,          *)
 (*   Tamper    a file in which ONE block is corrupted (every check whose range contains it reports FALSE) is   *)
 (*             never accepted.                                                                                 *)
-(* With GEN=1 every accepted shape is printed once as JSON: the harness builds real files of exactly these     *)
+(* GEN (GenInit): the same shape space is printed as JSON; the harness builds real files of exactly these      *)
 (* shapes through SPSDK's public classes.                                                                      *)
 EXTENDS Sb2Rom, Json, IOUtils
 CONSTANTS MaxSecs, MaxHm, MaxCmds, MaxPay, Chains
@@ -123,7 +123,7 @@ DoHdrMac20 == At("CheckHeaderMac") /\ CheckHeaderMac20(Ev) /\ Step
 DoHdrMac21 == At("CheckHeaderMac") /\ CheckHeaderMac21(Ev) /\ Step
 DoCert21 == At("ParseCertBlock") /\ ParseCertBlock21(Ev) /\ Step
 DoCert20 == At("ParseCertBlock") /\ ParseCertBlock20(Ev) /\ Step
-DoSig21 == At("VerifySignature") /\ VerifySignature21(Ev) /\ Step
+DoSig21 == At("VerifySignature") /\ VerifySignature21(Ev) /\ FirstTag21Ok(Ev) /\ Step
 DoSig20 == At("VerifySignature") /\ VerifySignature20(Ev) /\ Step
 DoSha == At("CheckSha") /\ CheckSha(Ev) /\ Step
 DoTag == At("SectionTag") /\ SectionTag(Ev) /\ Step
@@ -135,6 +135,11 @@ DoAccept == At("Accept") /\ Accept(Ev) /\ Step /\ (Gen => PrintT(ToJson(shape)))
 Done == (st = "Accepted" \/ (bad >= 0 /\ i <= Len(Evs))) /\ UNCHANGED vars
 Next == DoParseHeader \/ DoUnwrap \/ DoHdrMac20 \/ DoHdrMac21 \/ DoCert21 \/ DoCert20 \/ DoSig21 \/ DoSig20 \/ DoSha \/ DoTag \/ DoHmac
         \/ DoCmd \/ DoSectionEnd \/ DoAccept \/ Done
+
+\* ---- GEN: TLC enumerates the shape space itself (initial states only); that the automaton accepts every one of them is what the MC run
+\* over the same constants establishes (the harness compares the two counts)
+GenInit == RInit /\ shape \in Shapes /\ i = 1 /\ bad = 0 - 1 /\ evs = <<>> /\ PrintT(ToJson(shape))
+GenNext == UNCHANGED vars
 
 \* ---- lemmas
 Complete == st = "Accepted" =>
